@@ -2,10 +2,10 @@ package main
 
 import (
 	"fmt"
-	"sort"
 	"go/ast"
 	"go/constant"
 	"go/types"
+	"sort"
 	"strings"
 
 	"golang.org/x/tools/go/ssa"
@@ -16,6 +16,7 @@ func init() { props["C22"] = checkC22 }
 func checkC22(r *Run) {
 	r.Explain = "(R4+) every slice/index expression in the message handlers that run on the event loop (process methods, IntroductionMessage.Verify, onMessageEvent) is in bounds; (R1+) in the read loop every successful append to the connection buffer is followed by decodeData before the next read, and every frame decodeData returns is offered to the message channel in order; C22: (R1) decodeData consumes a frame only after: length prefix decoded, 4 <= length <= max, the whole frame is buffered; every consumed frame is copied into a fresh slice filled by a successful Read and appended; every non-error return hands back the accumulated frames (none consumed is dropped); the loop runs while more than a prefix is buffered; an invalid length is the only disconnect reason; (R2) convertToMessage succeeds only for a known id, a body that decodes, and no trailing bytes, and its rejections are exactly the four documented disconnect reasons; deserialization runs under a deferred recover; (R3) the 12 registered message types have distinct 4-byte prefixes, implement gnet.Message, decode with their generated codec (or carry no body) and are dispatched asynchronously; (R4) bounds of the slices over received bytes."
 	r.NotDec = "delivery order under arbitrary chunkings as a history property (the per-call structural conditions above are necessary for it)"
+	ruleConfigPassthrough(r, "C22-R5")
 	const dd = "daemon/gnet.decodeData"
 	fn := r.fn("C22-R1", dd)
 	if fn == nil {
